@@ -338,20 +338,22 @@ claim("C06",
       design_ref="DESIGN.md §5 C06")
 
 claim("C19",
-      text="Proved in Lean (16 theorems, incl. pins of 29 constant groups: cmdargs, version thresholds, line prefixes, response keys, termini, S-expression reader constants), for a state-machine model of delphin/ace.py (interact/send/_result_lines/receive/_open/"
+      text="Proved in Lean (18 theorems, incl. pins of 29 constant groups: cmdargs, version thresholds, line prefixes, response keys, termini, S-expression reader constants), for a state-machine model of delphin/ace.py (interact/send/_result_lines/receive/_open/"
            "close for the parser, transferer and generator with both protocols; repaired code) talking to a scripted child with "
            "an arbitrary exit schedule and arbitrary race-oracle stream: one response per input in order, each recording its "
            "input, built only from lines the processor wrote for that input; no hang and no exception; unserved or unanswered "
            "inputs give empty results; after an observed end-of-stream later sent inputs run under a strictly larger run id (new "
            "child, new run record); refused inputs (blank parser input, text without a bracketed MRS) are reported as skipped and "
-           "change nothing; close() ends the last run record and returns the child's exit status. Termini are pinned to a table "
-           "generated from the live module.",
+           "change nothing; close() ends the last run record and returns the child's exit status. With the default protocol every "
+           "line a response is built from is a complete line the processor wrote for that input, and a response has no results "
+           "when no complete content line arrived (default_results_from_complete_lines; repaired code, F54). Termini are pinned "
+           "to a table generated from the live module.",
       note="The theorems assume the processor answers completely while alive and writes nothing after a terminator (a decide-checked "
            "counter-example shows this is needed). Pipes, buffering, reaping and time are not modelled: each observation of a "
            "dying child consumes one oracle bit; the harness forces three exit-visibility schedules on the real code with a "
            "scripted stand-in (harness/standins/fakeace.py) so that model traces are replayable, and checks free races with the "
            "direct oracle only, every interaction under a hard timeout. The 'unmodelled' outcome marks S-expression shapes "
-           "outside the model. Five defects found here were repaired in /repo (F18 F19 F47 F48 F49).",
+           "outside the model. Six defects found here were repaired in /repo (F18 F19 F47 F48 F49 F54). Inputs and answers up to 200 000 characters (pipe-buffer boundaries 4096/8192/65536) are part of every run.",
       technique="Lean 4 proof over a state-machine model + scripted stand-in processor + differential correspondence",
       design_ref="DESIGN.md §5 C19")
 
